@@ -239,10 +239,14 @@ def r17_2(rep, M, rid):
             if pol is True and isinstance(t, ast.If):
                 members += t.test.values if isinstance(t.test, ast.BoolOp) and isinstance(t.test.op, ast.And) else [t.test]
         cov = per = False
+        strict_cov = False
         for m in members:
             sl = fl.slice(m, at)
             for e in sl["exprs"]:
                 for x in ast.walk(e):
+                    if isinstance(x, ast.Compare) and isinstance(x.ops[0], ast.Gt) and \
+                            isinstance(x.comparators[0], ast.Attribute) and x.comparators[0].attr == "min_coverage":
+                        strict_cov = True
                     if isinstance(x, ast.Compare) and isinstance(x.ops[0], (ast.GtE, ast.Gt)) and \
                             isinstance(x.comparators[0], ast.Attribute) and x.comparators[0].attr == "min_coverage":
                         # numerator/denominator: basis atoms of the region / all atoms
@@ -265,6 +269,8 @@ def r17_2(rep, M, rid):
             problems.append(f"`{rname} is not None` does not dominate it")
         if not cov:
             problems.append("not guarded by coverage >= self.min_coverage (basis atoms of the region / all atoms)")
+        if strict_cov:
+            problems.append("coverage is compared with `>`: a region covering exactly min_coverage of the atoms ('at least') is rejected")
         if not per:
             problems.append("not guarded by `exactly two connected directions` of the region")
         if not is2d or is2d[0][1] is not want_pol:
@@ -555,6 +561,11 @@ def run(rep, ctx):
                    ("R17.5", lambda: (r17_5(rep, M, "R17.5"), config_mutation(rep, M, "R17.5"))), ("R17.6", lambda: r17_6(rep, M, "R17.6"))):
         with rep.guard(rid):
             f()
+    rep.rule("R17.7", "every exception handler on the paths of classify is a confirmed one (classify fails only the documented way)")
+    with rep.guard("R17.7"):
+        from .. import handlers
+        handlers.check(rep, M, "R17.7", M.reachable([FQ]))
+    rep.floor("R17.7", 8)
     rep.floor("R17.1", 7)
     rep.floor("R17.2", 3)
     rep.floor("R17.3", 4)
